@@ -9,7 +9,8 @@ RULE = ("bounded-exhaustive histories over a 14-operation alphabet (8 list mutat
         "(quick: all of length <= 2 and a sample of length 3) / 4 (thorough: all of length <= 3, of length 4 every history that ends in a sighash step after an earlier one, plus a sample), targeted histories [sighash f k; mutator at position k-1/k/k+1 (single or bulk, inputs or outputs); sighash f k; sighash 0x41] for 12 flags x 3 indices, "
         "every other &mut self entry point (add_inputs/add_outputs incl. empty, public hash_inputs, sign, sign_with_k, get_outpoints, the clones returned by set_version/set_nlocktime), "
         "two live objects (fork = clone with copied cache, swap; mutate one, query the other, both directions), starting states new / default / "
-        "re-parsed through bytes, hex, JSON and CBOR, "
+        "re-parsed through bytes, hex, JSON and CBOR, parsed from non-canonical encodings (non-minimal compact sizes in each count / length field), "
+        "consecutive sign / sighash calls with different amounts, "
         "random histories of length 5-60 over all 14 flags, clone, "
         "all mutators with in-range positions, out-of-range sighash indices, and a few panicking (API misuse) histories; every step compares "
         "preimage, serialisation, fresh-copy preimage and the three cache slots (hook); non-trivial = the history contains a sighash "
@@ -197,6 +198,16 @@ def generate(rng, tier):
         Hs(["new.1.5", "ais." + in_elem(rng, 84) + "/" + in_elem(rng, 85), "aos." + out_elem(rng, 86), sh, "sh.65.1.ac.7", "si.1." + in_fields(rng, 87), "sh.65.1.ac.7", sh], t33)
         for rp in ["fb", "fh", "fj", "fc"]:
             Hs([sh, "sh.65.0.ac.7", rp, sh, "so.0." + out_fields(rng, 88), rp, sh, "sh.65.0.ac.7", "fk", rp, "si.0." + in_fields(rng, 89), "sh.65.0.ac.7", "sw", "sh.65.0.ac.7"], t33)
+    # accepted but non-canonical encodings as starting point (initial argument and mid-history via pb / ph): the parsed object must
+    # answer like a fresh parse of its own (canonical) serialisation, for every flag class
+    classes = ["sh.%d.%d.76a9.%d" % (f, k % 2, 100 + k) for k, f in enumerate([65, 193, 66, 67, 194, 195, 1, 3, 129, 131])]
+    for k, t in enumerate(G.NONCANONICAL_TXS):
+        Hs(classes + ["fb", "sh.65.0.76a9.100", "sh.193.1.76a9.5"], t.hex())
+        Hs(["sh.65.0.ac.1", ("pb." if k % 2 else "ph.") + t.hex(), "sh.65.0.ac.1", "sh.193.1.ac.1", "sh.67.1.ac.1", "so.0." + out_fields(rng, 91), "sh.65.0.ac.1", "sh.193.0.ac.1"], t33)
+    # amounts: consecutive sign / sighash calls for the same input with different amounts, also across clone / fork / re-parse
+    for f in [65, 67, 193, 195]:
+        Hs(["sg.%d.1.76a9.1000" % f, "sh.%d.1.76a9.2000" % f, "sk.%d.1.76a9.3000" % f, "fk", "sh.%d.1.76a9.4000" % f, "sw", "sh.%d.1.76a9.5000" % f,
+            "cl", "sg.%d.1.76a9.18446744073709551615" % f, "sh.%d.1.76a9.0" % f, "fb", "sh.%d.1.76a9.6000" % f, "sg.%d.0.76a9.7000" % f, "sh.%d.0.76a9.8000" % f], t33)
     # other starting shapes for the short histories
     for (nin, nout) in [(1, 1), (3, 1), (1, 3)]:
         t = G.mk_tx(rng, nin, nout).hex()
